@@ -300,7 +300,7 @@ where
                                 ..sopts.clone()
                             };
                             let desc = json!({"op": name, "input": format!("{input:?}")});
-                            soundness_stage(&name, &desc, k, &circuit, &mut tables, &exp, op.n_input_positions(input), &only_seeded, &mut rng, &mut part, &mut st);
+                            soundness_stage(&name, &format!("ZkStdLib::{name}"), &desc, k, &circuit, &mut tables, &exp, op.n_input_positions(input), &only_seeded, &mut rng, &mut part, &mut st);
                         }
                     }
                 }
@@ -355,7 +355,7 @@ fn field_filler(class: usize, rng: &mut ChaCha8Rng) -> (Option<F>, &'static str)
     }
 }
 
-fn var_sha_cases<const M: usize>(lens: &[usize], fillers: &[usize], with_trim: bool, rng: &mut ChaCha8Rng, cov: &mut BTreeMap<String, u64>) -> Vec<(VarSha256<M>, Vec<u8>)> {
+fn var_sha_cases<const M: usize>(lens: &[usize], fillers: &[usize], trim_every: usize, rng: &mut ChaCha8Rng, cov: &mut BTreeMap<String, u64>) -> Vec<(VarSha256<M>, Vec<u8>)> {
     let mut cases = vec![];
     for (i, &len) in lens.iter().enumerate() {
         for &fc in fillers {
@@ -373,7 +373,7 @@ fn var_sha_cases<const M: usize>(lens: &[usize], fillers: &[usize], with_trim: b
             ));
         }
         // position-dependent garbage in front of the message (and a shifted buffer) through trim_beginning
-        if with_trim && len >= 1 && len < M {
+        if i % trim_every == 0 && len >= 1 && len < M {
             let trim = rng.gen_range(1..=(M - len).min(70));
             let (filler, _) = byte_filler(i + 1, rng);
             let mut payload = padding_like(rng, trim);
@@ -392,7 +392,7 @@ fn var_sha_cases<const M: usize>(lens: &[usize], fillers: &[usize], with_trim: b
     cases
 }
 
-fn var_pos_cases<const M: usize>(lens: &[usize], fillers: &[usize], with_trim: bool, rng: &mut ChaCha8Rng, cov: &mut BTreeMap<String, u64>) -> Vec<(VarPoseidon<M>, Vec<F>)> {
+fn var_pos_cases<const M: usize>(lens: &[usize], fillers: &[usize], trim_every: usize, rng: &mut ChaCha8Rng, cov: &mut BTreeMap<String, u64>) -> Vec<(VarPoseidon<M>, Vec<F>)> {
     let mut cases = vec![];
     for (i, &len) in lens.iter().enumerate() {
         for &fc in fillers {
@@ -409,7 +409,7 @@ fn var_pos_cases<const M: usize>(lens: &[usize], fillers: &[usize], with_trim: b
                 payload,
             ));
         }
-        if with_trim && len >= 1 && len < M {
+        if i % trim_every == 0 && len >= 1 && len < M {
             let trim = rng.gen_range(1..=(M - len).min(9));
             let (filler, _) = field_filler(i + 1, rng);
             let payload: Vec<F> = (0..len + trim).map(|_| F::random(&mut *rng)).collect();
@@ -641,7 +641,7 @@ fn main() {
     );
     rep.assume(
         "Conventions not fixed by the paper are taken from the repository's documentation and implemented independently: the partial-round S-box acts on the last cell \
-         (the reference script uses cell 0, so digests are not interoperable with implementations following the script); sponge framing = capacity cell last, initialised \
+         (the paper does not number the cells; the reference script and most other implementations use cell 0, so digests are not interoperable with those); sponge framing = capacity cell last, initialised \
          with the input length (fixed-length mode; the empty message therefore hashes to 0 without any permutation) or 2^64 (streaming mode, which pads each squeeze with \
          the number of pending elements).",
     );
@@ -687,10 +687,10 @@ fn main() {
 
     let sound_big = SoundOpts {
         property: "C07".into(),
-        edit_positions: ctx.tier.pick(2, 3),
+        edit_positions: 2,
         ars_positions: 1,
         ars: big.clone(),
-        seeded_runs: ctx.tier.pick(2, 4),
+        seeded_runs: ctx.tier.pick(2, 3),
     };
     let sound_small = SoundOpts {
         property: "C07".into(),
@@ -720,7 +720,7 @@ fn main() {
         lens_cov.insert(alg.name().to_string(), json!(lens));
         for (i, &len) in lens.iter().enumerate() {
             let mut inputs = vec![rand_bytes(&mut rng, len)];
-            if thorough && len > 0 {
+            if thorough && len > 0 && (len % 8 == 0 || [55, 56, 63, 111, 112, 119, 120, 127].contains(&(len % 128))) {
                 inputs.push(if i % 2 == 0 { padding_like(&mut rng, len) } else { vec![0xFF; len] });
             }
             // the seeded ARS pass is run on a subset of lengths only (it re-collects the tables)
@@ -743,7 +743,7 @@ fn main() {
     lens_cov.insert("ripemd160".into(), json!(rlens));
     for (i, &len) in rlens.iter().enumerate() {
         let mut cases = vec![(Ripemd { len }, rand_bytes(&mut rng, len))];
-        if thorough && len > 0 {
+        if thorough && len > 0 && (len % 8 == 0 || [55, 56, 63].contains(&(len % 64))) {
             cases.push((Ripemd { len }, if i % 2 == 0 { padding_like(&mut rng, len) } else { vec![0xFF; len] }));
         }
         let mut so = sound_big.clone();
@@ -764,14 +764,14 @@ fn main() {
         let mut so = sound_big.clone();
         so.seeded_runs = ctx.tier.pick(0, 1);
         so.edit_positions = 1;
-        for (i, c) in var_sha_cases::<64>(&l64, fillers, true, &mut rng, &mut filler_cov).into_iter().enumerate() {
+        for (i, c) in var_sha_cases::<64>(&l64, fillers, ctx.tier.pick(1, 4), &mut rng, &mut filler_cov).into_iter().enumerate() {
             let mut s = so.clone();
             if i % 4 != 0 {
                 s.ars_positions = 0;
             }
             jobs.push((400, "sha256_varlen".into(), raw_job(vec![c], s, seed, format!("vsha64-{i}"))));
         }
-        for (i, c) in var_sha_cases::<128>(&l128, fillers, true, &mut rng, &mut filler_cov).into_iter().enumerate() {
+        for (i, c) in var_sha_cases::<128>(&l128, fillers, ctx.tier.pick(1, 4), &mut rng, &mut filler_cov).into_iter().enumerate() {
             let mut s = so.clone();
             if i % 4 != 0 {
                 s.ars_positions = 0;
@@ -791,10 +791,10 @@ fn main() {
         so.seeded_runs = ctx.tier.pick(2, 2);
         so.edit_positions = 1;
         so.ars_positions = 1;
-        for (i, c) in var_pos_cases::<64>(&l64, fillers, true, &mut rng, &mut filler_cov).into_iter().enumerate() {
+        for (i, c) in var_pos_cases::<64>(&l64, fillers, ctx.tier.pick(1, 4), &mut rng, &mut filler_cov).into_iter().enumerate() {
             jobs.push((100, "poseidon_varlen".into(), raw_job(vec![c], so.clone(), seed, format!("vpos64-{i}"))));
         }
-        for (i, c) in var_pos_cases::<128>(&l128, fillers, true, &mut rng, &mut filler_cov).into_iter().enumerate() {
+        for (i, c) in var_pos_cases::<128>(&l128, fillers, ctx.tier.pick(1, 4), &mut rng, &mut filler_cov).into_iter().enumerate() {
             jobs.push((150, "poseidon_varlen".into(), raw_job(vec![c], so.clone(), seed, format!("vpos128-{i}"))));
         }
     }
@@ -845,7 +845,8 @@ fn main() {
     rep.set("per_gadget", json!(per_op.iter().map(|(k, s)| (k.clone(), s.json())).collect::<BTreeMap<_, _>>()));
     rep.set("message_lengths", json!(lens_cov));
     rep.set("varlen_filler_classes", json!(filler_cov));
-    rep.set("circuits", json!(n_jobs));
+    rep.set("jobs", json!(n_jobs));
+    rep.set("circuits", json!(per_op.values().map(|s| s.honest).sum::<u64>()));
     rep.set(
         "ars_budgets",
         json!({"large_circuits(k>=13)": format!("{big:?}"), "small_circuits": format!("{:?}", sound_small.ars), "real_prover_confirmation_k_max": 12,
